@@ -61,6 +61,13 @@ OP_SPECS = [
     ["TriangularSolveOp", [True, False]],
     ["StdOp", [None, 0, False]],
     ["StdOp", [None, 1, False]],
+    # parameters fixed by keyword while an earlier one stays open: [class, positional, keywords]
+    ["NewFullOp", [], {"value": 1.0}],
+    ["NewFullOp", [], {"value": 2.0}],
+    ["DiagonalOp", [], {"dim2": 1}],
+    ["DiagonalOp", [], {"dim2": 2}],
+    ["TransposeOp", [], {"axis2": 1}],
+    ["TransposeOp", [], {"axis2": 0}],
 ]
 
 
@@ -82,7 +89,7 @@ def gen_recipe(r):
     c = r.random()
     h = lambda: r.randrange(64)  # handle reference, taken modulo #live  # noqa: E731
     if c < 0.10:
-        return ["var", r.choice(NAMES + ["x"]), r.choice([["bint", 2], ["bint", 3], ["real"], ["reals", [2]]])]
+        return ["var", r.choice(NAMES + ["x"]), r.choice([["bint", 2], ["bint", 3], ["real"], ["reals", [2]], ["bint_shaped", 2, [3]], ["bint_shaped", 3, [2]]])]
     if c < 0.18:
         return ["num", r.choice([1, 1.0, True, 0, 0.5, 2, 2.0])]
     if c < 0.36:
@@ -104,7 +111,8 @@ def gen_recipe(r):
     if c < 0.84:
         return ["delta", r.choice(["x", "y"]), h(), h()]
     if c < 0.88:
-        return ["domain", r.choice([["bint", 2], ["bint", 5], ["reals", [2, 2]], ["reals", [3]], ["real"], ["product", [["bint", 2], ["real"]]]])]
+        return ["domain", r.choice([["bint", 2], ["bint", 5], ["reals", [2, 2]], ["reals", [3]], ["real"], ["product", [["bint", 2], ["real"]]],
+                                    ["bint_shaped", 2, [3]], ["bint_shaped", 3, [2]], ["bint_shaped", 2, [2, 3]], ["array", 2, [3]], ["array", "real", [3, 2]]])]
     if c < 0.94:
         return ["op", r.choice(OP_SPECS)]
     if c < 0.97:
@@ -336,6 +344,10 @@ class Sim:
             return f.Real
         if spec[0] == "reals":
             return f.Reals[tuple(spec[1])]
+        if spec[0] == "bint_shaped":  # integers below spec[1], with an event shape
+            return f.Bint[(spec[1],) + tuple(spec[2])]
+        if spec[0] == "array":
+            return f.domains.Array[spec[1], tuple(spec[2])]
         if spec[0] == "product":
             return f.domains.Product[tuple(self.domain(s) for s in spec[1])]
         raise KeyError(spec)
@@ -399,10 +411,11 @@ class Sim:
         if t == "domain":
             return (lambda: self.domain(recipe[1])), ("domain", json.dumps(recipe[1]))
         if t == "op":
-            cname, params = recipe[1]
+            cname, params = recipe[1][:2]
+            kw = recipe[1][2] if len(recipe[1]) > 2 else {}
             cls = getattr(ops, cname)
             args = tuple(_op_param(p) for p in params)
-            return (lambda: cls(*args)), ("op", json.dumps(recipe[1]))
+            return (lambda: cls(*args, **kw)), ("op", json.dumps(recipe[1]))
         if t == "ptype":
             name = recipe[1]
             if name == "Tensor":
@@ -495,9 +508,10 @@ class Sim:
             if tuple(obj.inputs.items()) != req[2]:
                 raise Violation("I3-stale-object", "Tensor built with inputs %r has inputs %r" % (req[2], tuple(obj.inputs.items())))
         if ev["recipe"][0] == "op":
-            cname, params = ev["recipe"][1]
-            want = tuple(_op_param(p) for p in params)
-            got = tuple(obj.defaults.values())[: len(want)]
+            cname, params = ev["recipe"][1][:2]
+            kw = ev["recipe"][1][2] if len(ev["recipe"][1]) > 2 else {}
+            want = tuple(_op_param(p) for p in params) + tuple(kw.values())
+            got = tuple(obj.defaults.values())[: len(params)] + tuple(obj.defaults.get(k) for k in kw)
             if type(obj).__name__ != cname or got != want:
                 raise Violation(
                     "I3-stale-object",
